@@ -3,7 +3,7 @@
    The claim is PARTIAL: the heap model (Heap.v) abstracts CPython object semantics. *)
 From Coq Require Import ZArith List Bool.
 Import ListNotations.
-Require Import PyBase Heap HeapFacts HeapFrame HeapCopy HeapSim HeapHistory HeapOps HeapLinkerSim HeapProtect HeapLinkerCopySim HeapExamples.
+Require Import PyBase Heap HeapFacts HeapFrame HeapCopy HeapSim HeapHistory HeapOps HeapLinkerSim HeapProtect HeapLinkerCopySim HeapLinkerInit HeapExamples.
 Open Scope Z_scope.
 
 (* copy.deepcopy creates only new objects: the old heap is a prefix of the new one, the result refers to new objects only *)
@@ -93,6 +93,26 @@ Theorem C11_init_disjoint K h c a h' r ok b :
   leaky (ia_span a) = false -> ia_linker a = None ->
   wf h' /\ same_subheap h h' b /\ sep h' r b /\ (forall l, reach h' r l -> (length h <= l)%nat).
 Proof. exact (init_disjoint K h c a h' r ok b). Qed.
+
+(* BaseLinker.__init__ — Linker({k: model, ...}) (the dict is built for the call): building the linker changes no existing object;
+   the new linker reaches only new objects and what the submodels it was handed reach.  Hence it shares nothing with its class,
+   with sibling linkers built on other submodels, or with any object b that is separate from those submodels *)
+Theorem C11_linker_init_shares_only_submodels K h c cells nme h3 r3 b :
+  init_M (h ++ [mkObj KDict cells]) c K (linker_iargs (h ++ [mkObj KDict cells]) K (length h) nme) = (h3, r3, true) ->
+  wf h -> (forall l, In l (refs (mkObj KDict cells)) -> (l < length h)%nat) ->
+  (b < length h)%nat -> (forall k x, In (k, VR x) cells -> sep h x b) ->
+  same_subheap h h3 b /\ sep h3 r3 b /\
+  (forall l, reach h3 r3 l -> (length h <= l)%nat \/ exists k x, In (k, VR x) cells /\ reach h x l).
+Proof. exact (linker_init_shares_only_submodels K h c cells nme h3 r3 b). Qed.
+
+(* ... hypotheses satisfiable: two model instances handed to a linker class; the linker class and the model class are separate
+   from both submodels *)
+Theorem C11_linker_init_example :
+  wf (sh s_pre) /\ (forall l, In l (refs (mkObj KDict lk_cells)) -> (l < length (sh s_pre))%nat) /\
+  snd (init_M (sh s_pre ++ [mkObj KDict lk_cells]) 8%nat K0
+              (linker_iargs (sh s_pre ++ [mkObj KDict lk_cells]) K0 (length (sh s_pre)) 117)) = true /\
+  (forall k x, In (k, VR x) lk_cells -> sep (sh s_pre) x 8%nat /\ sep (sh s_pre) x 4%nat).
+Proof. exact ex_linker_init_hypotheses. Qed.
 
 (* instantiation only READS the class: creating an instance (immutable or unshared span) leaves the class object, its lists, and
    every other existing root exactly as they were, at every depth *)
@@ -282,3 +302,5 @@ Print Assumptions C11_path_footprint.
 Print Assumptions C11_siblings_then_any_operations.
 Print Assumptions C11_linker_history_example.
 Print Assumptions C11_init_leaves_class_and_others.
+Print Assumptions C11_linker_init_shares_only_submodels.
+Print Assumptions C11_linker_init_example.
